@@ -158,74 +158,78 @@ def check_result(ctx, case, entry, opts, as_ir, m2, wf_batch, stats, base=None):
                 ctx.violation("C04:initializer-input:default-removed",
                               f"{entry}: the default initializer of graph input {name} was removed (the input became required)", doc({"input": name}))
                 stats["violations"] += 1
-        ov = G.override_values(ctx.rng, case)
-        if ov:
-            feeds = [dict(fd, **ov) for fd in case.feeds]
-            s1, o1 = R.run_ort(case.model, feeds)
-            if s1 == "ok":
-                # supply every initializer-input explicitly so that a dropped default does not mask the comparison
-                full = [dict(fd, **{n: (ov[n] if n in ov else a) for n, a, _ in case.overridable}) for fd in case.feeds]
-                s0, o0 = R.run_ort(case.model, full)
-                s2, o2 = R.run_ort(m2, full)
-                if s0 == "ok" and s2 == "ok":
-                    # does the optimized model differ from the original already for the DEFAULT values (all of them fed
-                    # explicitly)?  Then the difference has nothing to do with the override: it is C03's finding, reported there
-                    dflt = [dict(fd, **{n: a for n, a, _ in case.overridable}) for fd in case.feeds]
-                    sd0, od0 = R.run_ort(case.model, dflt)
-                    sd2, od2 = R.run_ort(m2, dflt)
-                    if sd0 == "ok" and (sd2 != "ok" or any(R.compare_outputs(a, b, case.exact) is not None for a, b in zip(od0, od2))):
-                        stats["differs-for-default-values-too(C03)"] += 1
-                        o0, o2 = [], []
-                        # ... unless the optimized model no longer DEPENDS on the initializer-input where the original does: a
-                        # consumer of the default was evaluated at optimization time (whatever value it was given)
-                        lost = _dependence_lost(od0, R.run_ort(case.model, full)[1], od2 if sd2 == "ok" else None, R.run_ort(m2, full))
-                        fams = _rewrite_rule_families(case, [n for n, _, _ in case.overridable], full, opts) if lost is not None and entry != "fold_constants" else []
-                        for fam in fams:
-                            ctx.violation(f"C04:initializer-input:rewrite-rule-reads-default:{fam}",
-                                          f"{entry}: a rewrite rule ({fam}) treated the default of an initializer-input as a constant (output {lost} no "
-                                          f"longer depends on it)", doc({"override": {k: np.asarray(v).tolist() for k, v in ov.items()}, "stage": "rewrite"}))
-                        if fams:
-                            stats["violations"] += 1
-                        elif lost is not None:
-                            names = [n for n, _, _ in case.overridable]
-                            ops = ",".join(_changed_consumers(case.model, m2, names) or ["unknown"])
-                            ctx.violation(f"C04:initializer-input:folded:generic:{ops}",
-                                          f"{entry}: output {lost} of the original model depends on an initializer-input, the same output of the "
-                                          f"optimized model does not (a consumer of the default was evaluated at optimization time)",
-                                          doc({"override": {k: np.asarray(v).tolist() for k, v in ov.items()}}))
-                            stats["violations"] += 1
-                    for a, b in zip(o0, o2):
-                        dd = R.compare_outputs(a, b, case.exact)
-                        if dd is not None:
-                            names = [n for n, _, _ in case.overridable]
-                            fams = _rewrite_rule_families(case, names, full, opts) if entry != "fold_constants" else []
+        # override values: the family's own list (shape-override: every value changes a shape) or one random set
+        for ov in (getattr(case, "overrides", None) or [G.override_values(ctx.rng, case)]):
+            nv0 = stats["violations"]
+            if ov:
+                feeds = [dict(fd, **ov) for fd in case.feeds]
+                s1, o1 = R.run_ort(case.model, feeds)
+                if s1 == "ok":
+                    # supply every initializer-input explicitly so that a dropped default does not mask the comparison
+                    full = [dict(fd, **{n: (ov[n] if n in ov else a) for n, a, _ in case.overridable}) for fd in case.feeds]
+                    s0, o0 = R.run_ort(case.model, full)
+                    s2, o2 = R.run_ort(m2, full)
+                    if s0 == "ok" and s2 == "ok":
+                        # does the optimized model differ from the original already for the DEFAULT values (all of them fed
+                        # explicitly)?  Then the difference has nothing to do with the override: it is C03's finding, reported there
+                        dflt = [dict(fd, **{n: a for n, a, _ in case.overridable}) for fd in case.feeds]
+                        sd0, od0 = R.run_ort(case.model, dflt)
+                        sd2, od2 = R.run_ort(m2, dflt)
+                        if sd0 == "ok" and (sd2 != "ok" or any(R.compare_outputs(a, b, case.exact) is not None for a, b in zip(od0, od2))):
+                            stats["differs-for-default-values-too(C03)"] += 1
+                            o0, o2 = [], []
+                            # ... unless the optimized model no longer DEPENDS on the initializer-input where the original does: a
+                            # consumer of the default was evaluated at optimization time (whatever value it was given)
+                            lost = _dependence_lost(od0, R.run_ort(case.model, full)[1], od2 if sd2 == "ok" else None, R.run_ort(m2, full))
+                            fams = _rewrite_rule_families(case, [n for n, _, _ in case.overridable], full, opts) if lost is not None and entry != "fold_constants" else []
+                            for fam in fams:
+                                ctx.violation(f"C04:initializer-input:rewrite-rule-reads-default:{fam}",
+                                              f"{entry}: a rewrite rule ({fam}) treated the default of an initializer-input as a constant (output {lost} no "
+                                              f"longer depends on it)", doc({"override": {k: np.asarray(v).tolist() for k, v in ov.items()}, "stage": "rewrite"}))
                             if fams:
-                                # the default rewrite rules alone (no folding) already bake the default in: a constant-matching rule
-                                # read const_value of the initializer-input
-                                for fam in fams:
-                                    ctx.violation(f"C04:initializer-input:rewrite-rule-reads-default:{fam}",
-                                                  f"{entry}: a rewrite rule ({fam}) treated the default of an initializer-input as a constant: with "
-                                                  f"override values the optimized model differs: {dd}",
-                                                  doc({"override": {k: np.asarray(v).tolist() for k, v in ov.items()}, "stage": "rewrite"}))
+                                stats["violations"] += 1
+                            elif lost is not None:
+                                names = [n for n, _, _ in case.overridable]
+                                ops = ",".join(_changed_consumers(case.model, m2, names) or ["unknown"])
+                                ctx.violation(f"C04:initializer-input:folded:generic:{ops}",
+                                              f"{entry}: output {lost} of the original model depends on an initializer-input, the same output of the "
+                                              f"optimized model does not (a consumer of the default was evaluated at optimization time)",
+                                              doc({"override": {k: np.asarray(v).tolist() for k, v in ov.items()}}))
+                                stats["violations"] += 1
+                        for a, b in zip(o0, o2):
+                            dd = R.compare_outputs(a, b, case.exact)
+                            if dd is not None:
+                                names = [n for n, _, _ in case.overridable]
+                                fams = _rewrite_rule_families(case, names, full, opts) if entry != "fold_constants" else []
+                                if fams:
+                                    # the default rewrite rules alone (no folding) already bake the default in: a constant-matching rule
+                                    # read const_value of the initializer-input
+                                    for fam in fams:
+                                        ctx.violation(f"C04:initializer-input:rewrite-rule-reads-default:{fam}",
+                                                      f"{entry}: a rewrite rule ({fam}) treated the default of an initializer-input as a constant: with "
+                                                      f"override values the optimized model differs: {dd}",
+                                                      doc({"override": {k: np.asarray(v).tolist() for k, v in ov.items()}, "stage": "rewrite"}))
+                                    stats["violations"] += 1
+                                    break
+                                ops = _const_reading_consumers(case.model, names)
+                                if not ops:
+                                    # no partial evaluator reads these inputs: the generic folding path must have baked the default in
+                                    ops = ["generic:" + ",".join(_changed_consumers(case.model, m2, names) or ["unknown"])]
+                                for op in ops:
+                                    ctx.violation(f"C04:initializer-input:folded:{op}",
+                                                  f"{entry}: the default of an initializer-input was baked into its consumer {op}: with override values "
+                                                  f"the optimized model differs: {dd}",
+                                                  doc({"override": {k: np.asarray(v).tolist() for k, v in ov.items()}}))
                                 stats["violations"] += 1
                                 break
-                            ops = _const_reading_consumers(case.model, names)
-                            if not ops:
-                                # no partial evaluator reads these inputs: the generic folding path must have baked the default in
-                                ops = ["generic:" + ",".join(_changed_consumers(case.model, m2, names) or ["unknown"])]
-                            for op in ops:
-                                ctx.violation(f"C04:initializer-input:folded:{op}",
-                                              f"{entry}: the default of an initializer-input was baked into its consumer {op}: with override values "
-                                              f"the optimized model differs: {dd}",
-                                              doc({"override": {k: np.asarray(v).tolist() for k, v in ov.items()}}))
-                            stats["violations"] += 1
-                            break
-                elif s0 == "ok" and _fails_for_defaults_too(case, m2):
-                    stats["differs-for-default-values-too(C03)"] += 1
-                elif s0 == "ok":
-                    ctx.violation(f"C04:initializer-input:optimized-fails-with-override:{_norm_msg(o2)}",
-                                  f"{entry}: optimized model fails with override values: {o2[:200]}", doc())
-                    stats["violations"] += 1
+                    elif s0 == "ok" and _fails_for_defaults_too(case, m2):
+                        stats["differs-for-default-values-too(C03)"] += 1
+                    elif s0 == "ok":
+                        ctx.violation(f"C04:initializer-input:optimized-fails-with-override:{_norm_msg(o2)}",
+                                      f"{entry}: optimized model fails with override values: {o2[:200]}", doc())
+                        stats["violations"] += 1
+            if stats["violations"] > nv0:
+                break          # one failing override value per run is enough
 
 
 # consumer op of the initializer-input -> family of constant-matching rewrite rules (the names used by C05's findings)
@@ -674,14 +678,46 @@ def run(ctx):
 
     n_dag = 90 if quick else 560
     import itertools
+    import random as _random
+    from harness import c04_ifinits, c04_shapeov
+    # the two hand-built families draw from their own generators derived from the seed (the random DAG stream keeps its sequence)
+    fam_rng = _random.Random(f"{ctx.seed}:C04:families")
+    ifinit_cases = []
+    fam = collections.Counter()
     for c in itertools.chain(K.corpus_stream(rng, "C04"), K.alias_stream(rng, 15 if quick else 30), K.pass_family_stream(rng),
+                             c04_shapeov.cases(fam_rng), c04_ifinits.cases(fam_rng, quick),
                              K.dag_stream(rng, n_dag, overridable_every=3, start=7000)):
         if not isinstance(c, G.Case):
             discards["generator-error: " + c[1][:60]] += 1
             continue
         base, reason = K.validity(c)
+        if c.kind == "if-inits":
+            ifinit_cases.append(c)
+        if base is None and c.kind == "if-inits" and reason.startswith("runtimes disagree"):
+            # a branch initializer shadows an initializer of the enclosing graph: the model passes the checker and executes on both
+            # runtimes, which disagree on the value a branch reads.  Totality, checker validity and the signature are still owed
+            try:
+                onnx.checker.check_model(c.model, full_check=True)
+            except Exception:
+                discards["if-initializers: checker"] += 1
+                continue
+            fam["if-initializers:totality-and-validity-only(runtimes disagree on a shadowed initializer)"] += 1
+            ctx.case(("if-initializers", tuple(c.features[:4]), "totality-only"))
+            one_case(c, c.plan, None)
+            continue
         if base is None:
-            discards[reason.split(":")[0].split("(")[0].strip()] += 1
+            discards[(c.kind + ": " if c.kind in ("if-inits", "shape-ov") else "") + reason.split(":")[0].split("(")[0].strip()] += 1
+            continue
+        if c.kind in ("if-inits", "shape-ov"):
+            fam[{"if-inits": "if-initializers", "shape-ov": "shape-override"}[c.kind] + ":valid-models"] += 1
+            fam[c.features[0]] += 1
+            nv0 = len(ctx.violations)
+            ctx.case((c.kind, tuple(c.features[:4])))
+            one_case(c, c.plan, base)
+            fam[{"if-inits": "if-initializers", "shape-ov": "shape-override"}[c.kind] + ":runs"] += len(c.plan)
+            if c.kind == "shape-ov":
+                fam["shape-override:override-values"] += len(c.overrides)
+            fam["violations"] += len(ctx.violations) - nv0
             continue
         stats["valid-dag-models"] += 1
         ctx.case(("dag", tuple(f for f in c.features if not f.startswith("value_info"))[:12], bool(c.overridable)))
@@ -713,6 +749,35 @@ def run(ctx):
         one_case(c, [("optimize", None, False), ("fold_constants", None, False), ("rewrite", None, True)], base)
     eval_wf(ctx, wf_batch, stats)
 
+    # if-initializers: every call of the real _move_initializers_to_graph on the family = Opt/MoveInits.v (chosen names)
+    mstats = c04_ifinits.run_tie(ctx, ifinit_cases)
+    ctx.obligation("if-initializers (k = 1..4 sibling / nested constant-condition Ifs whose taken branches own initializers with clashing names, also "
+                   "clashing with initializers of the destination and with already-bumped names): no entry point raises, results valid; every call "
+                   "of _move_initializers_to_graph = Opt/MoveInits.v observed_ok (the chosen names are the first unused name_<n>)",
+                   mstats["calls"] >= 20 and mstats["calls-with-a-second-bump"] >= 5 and mstats["calls-disagreeing"] == 0 and mstats["calls-raised"] == 0
+                   and fam["if-initializers:valid-models"] >= 10,
+                   f"{dict(mstats)}; {dict((k, v) for k, v in fam.items() if k.startswith('if-init'))}")
+    ctx.obligation("shape-override (shape-like operand that is an initializer AND a graph input feeding Reshape / Expand / Slice / ConstantOfShape / "
+                   "Tile / Range, followed by Shape consumers): optimize / optimize_ir / fold_constants with ONNX shape inference on and off agree "
+                   "with the original for every override value (onnxruntime); signature kept; default kept",
+                   fam["shape-override:valid-models"] >= 7 and fam["shape-override:runs"] >= 40,
+                   f"{dict((k, v) for k, v in fam.items() if k.startswith('shape-') or k == 'violations')}")
+    # every read of a constant value in _constant_folding.py is behind the graph-input guard (or has a written reason)
+    sites = (info or {}).get("const_read_sites") or []
+    ung = (info or {}).get("const_reads_unguarded")
+    ctx.obligation("all_const_reads_guarded: every `.const_value` read / _get_numpy_value / get_constant_value call in _constant_folding.py (enumerated "
+                   "by AST, fail-closed) is behind the graph-input guard or listed with a reason; the _do_inference site reads through _get_numpy_value",
+                   info is not None and len(sites) >= 10 and not ung and bool(info.get("do_inference_through_numpy_value")),
+                   f"{len(sites)} sites; unguarded: {[(s[0], s[1], s[4]) for s in (ung or [])]}; classes: "
+                   f"{dict(collections.Counter(s[3] or 'UNGUARDED' for s in sites))}")
+    if info is not None and (ung or not info.get("do_inference_through_numpy_value")):
+        ctx.tie_broken("translator", "const-reads:unguarded-site",
+                       f"unguarded read(s) of a constant value: {[(s[0], s[1], s[4]) for s in (ung or [])]} (Props/C04_guard.v no longer holds of the source)")
+    if info is not None and not info.get("move_inits_search_loops"):
+        ctx.tie_broken("translator", "move-inits:fresh-name-search-is-not-a-loop",
+                       "_move_initializers_to_graph tries a single bumped name (Props/C04_moveinits.v: C04_one_bump_raises_on_double_clash_refuted)")
+    ctx.cover(families=dict(fam), move_inits_tie=dict(mstats))
+
     # rewrite / RewriteRuleSet.apply_to_model / RewritePass with rules that introduce a domain, functions NOT inlined: imports per
     # serialized container (model, every function), matches in the main graph / functions / their If and Loop bodies
     from harness import c04_rewrite
@@ -737,6 +802,7 @@ def run(ctx):
     # the witness of C04_unguarded_initializer_input_folded_refuted on the real code (If on an overridable condition)
     replay_witness(ctx, stats)
     inline_returns_formal_witness(ctx, stats)
+    function_if_initializer_witness(ctx, stats)
 
     if stats["valid-dag-models"] < n_dag // 2:
         ctx.tie_broken("harness", "generator-degenerate", f"only {stats['valid-dag-models']} valid DAG models of {n_dag}: {dict(discards)}")
@@ -838,3 +904,46 @@ f (a) => (r, a)
                       f"optimize(): {d[1]} (a model-local function returns its formal input, the call sits on a graph input; the original runs on "
                       "onnx.reference)", K.replay_doc(case, "optimize", None, False, {"signature": d[1]}))
         stats["violations"] += 1
+
+
+def function_if_initializer_witness(ctx, stats):
+    """A model-local function whose body has an If on a constant condition and whose branches own an initializer, functions NOT inlined
+    (fold_constants; optimize(inline=False)): if_op splices the taken branch into the function body and `_move_initializers_to_graph`
+    registers the branch initializer in the function's underlying graph - a function has no initializers, so it is not serialized and
+    the function body reads a value nobody defines.  The same If inside the main graph (k = 1 of the if-initializers family) is fine."""
+    import onnx.helper as oh
+    import onnx.numpy_helper as onh
+    F = onnx.TensorProto.FLOAT
+
+    def branch(name, op, val, out):
+        return oh.make_graph([oh.make_node(op, ["a", "scale"], [out])], name, [], [oh.make_tensor_value_info(out, F, ["N"])],
+                             initializer=[onh.from_array(np.array([val], dtype=np.float32), name="scale")])
+    fnodes = [oh.make_node("Constant", [], ["c"], value=onh.from_array(np.array(True))),
+              oh.make_node("If", ["c"], ["r"], then_branch=branch("th", "Mul", 2.0, "to"), else_branch=branch("el", "Add", -2.0, "eo"))]
+    f = oh.make_function("local", "f", ["a"], ["r"], fnodes, [oh.make_opsetid("", 18)])
+    g = oh.make_graph([oh.make_node("f", ["x"], ["y"], domain="local")], "main", [oh.make_tensor_value_info("x", F, ["N"])], [oh.make_tensor_value_info("y", F, ["N"])])
+    m = oh.make_model(g, opset_imports=[oh.make_opsetid("", 18), oh.make_opsetid("local", 1)], ir_version=8, functions=[f])
+    onnx.checker.check_model(m, full_check=True)
+    feeds = [{"x": np.array([1, -2, 0.5], dtype=np.float32)}]
+    case = G.Case(m, feeds, ["witness:function-body-if-with-branch-initializer"], [True], "witness", "witness-function-if-initializer")
+    s0, o0 = R.run_ort(m, feeds)
+    for entry, opts in (("fold_constants", None), ("optimize", (2, True, False, True, 8192, 512 * 512)), ("optimize", None)):
+        try:
+            m2 = R.apply_entry(entry, m, opts)
+        except Exception as e:
+            t, site, msg = R.root_cause(e)
+            ctx.violation(f"C04:raises:{t}:{site}", f"{entry} raised on the witness: {msg}", K.replay_doc(case, entry, opts, False))
+            continue
+        bad = _checker_fails(m2)
+        s2, o2 = R.run_ort(m2, feeds)
+        differs = s0 == "ok" and (s2 != "ok" or R.compare_outputs(o0[0], o2[0], [True]) is not None)
+        label = entry + ("(inline=False)" if opts else "")
+        stats[f"witness-function-if-initializer:{label}:valid"] = int(not bad and not differs)
+        ctx.case(("witness-function-if-initializer", label, not bad and not differs))
+        if bad or differs:
+            ctx.violation("C04:fold:if-in-function-body:branch-initializer-lost",
+                          f"{label}: an If on a constant condition inside a model-local function whose taken branch owns an initializer is inlined "
+                          f"into the function body; the initializer is registered in the function's underlying graph, which is not serialized: the "
+                          f"result {'fails onnx.checker' if bad else 'differs'} ({'onnxruntime: ' + str(o2)[:120] if s2 != 'ok' else ''})",
+                          K.replay_doc(case, entry, opts, False))
+            stats["violations"] += 1
